@@ -284,6 +284,12 @@ func (n *WorkflowNode) SetStaticValue(path FieldPath, value any) *WorkflowNode {
 
 func (n *WorkflowNode) addDependencyRelation(fromNodeKey string, inputs []*FieldMapping, options *workflowAddInputOpts) *WorkflowNode {
 	for _, input := range inputs {
+		if input == nil {
+			if n.g.buildError == nil {
+				n.g.buildError = fmt.Errorf("workflow node '%s' has a nil field mapping in its input from '%s'", n.key, fromNodeKey)
+			}
+			return n
+		}
 		input.fromNodeKey = fromNodeKey
 	}
 
@@ -425,10 +431,19 @@ func (wf *Workflow[I, O]) AddEnd(fromNodeKey string, inputs ...*FieldMapping) *W
 	return wf
 }
 
-func (wf *Workflow[I, O]) compile(ctx context.Context, options *graphCompileOptions) (*composableRunnable, error) {
+func (wf *Workflow[I, O]) compile(ctx context.Context, options *graphCompileOptions) (_ *composableRunnable, err error) {
 	if wf.g.buildError != nil {
 		return nil, wf.g.buildError
 	}
+
+	// an error found in the deferred declarations (branches, inputs, static values) sticks, like the errors of the
+	// Add* calls of a graph; the errors of the graph compilation proper (options, ...) do not
+	lowered := false
+	defer func() {
+		if err != nil && !lowered && wf.g.buildError == nil {
+			wf.g.buildError = err
+		}
+	}()
 
 	for _, wb := range wf.workflowBranches {
 		if wb.GraphBranch == nil {
@@ -534,6 +549,7 @@ func (wf *Workflow[I, O]) compile(ctx context.Context, options *graphCompileOpti
 
 	// TODO: check indirect edges are legal
 
+	lowered = true
 	return wf.g.compile(ctx, options)
 }
 
